@@ -21,6 +21,8 @@ def gen_file(rng, ndims=None, nvars=None, maxlen=4, coord_prob=0.3, masked_prob=
     for i, n in enumerate(names):
         ln = 1 if rng.random() < len1_prob else rng.randint(max(minlen, 1), maxlen)
         dims.append([n, ln, (i == 0 and rng.random() < unlim_prob)])
+    if nd >= 2 and rng.random() < 0.1:
+        dims[rng.randrange(1, nd)][2] = True        # a second record dimension (legal in memory and in NETCDF4)
     dl = {d[0]: d[1] for d in dims}
     nv = nvars or rng.randint(1, 6)
     vs = []
@@ -111,6 +113,11 @@ def build(spec, cls=None):
     for a in spec['attrs']:
         setattr(f, a, 'file_' + a)
     return f
+
+
+def disk_format(spec):
+    """the netCDF flavour a generated file is written with: classic formats hold one record dimension"""
+    return 'NETCDF4' if sum(1 for d in spec['dims'] if d[2]) > 1 else 'NETCDF4_CLASSIC'
 
 
 def _cells(data):
